@@ -89,6 +89,11 @@ def base_histories(tier):
     seqs = U.write_seqs(2 if tier == "quick" else 3, U.L_RED, U.G_RED)
     blocks = U.block_layouts(2, lens=(1, 3), gaps=(1, 9), first=(0, 2))
     hs = [s for s in seqs] + [[b] for b in blocks] + [[("w", 0, 3), U.shift_op(b, 3)] for b in blocks[::2]]
+    # create a file, append several blocks to it in one call, then write forward into the same file again
+    # (with 26-sample files all three calls share one file and one index dataset)
+    for b in blocks[::2]:
+        sb = U.shift_op(b, 3)
+        hs.append([("w", 0, 3), sb, ("w", U.op_end(sb) + 1, 2)])
     return hs
 
 
